@@ -66,6 +66,7 @@ pub struct ZarrTraceStorage {
     param_types: Vec<(String, ItemType)>,
     draw_types: Vec<(String, ItemType)>,
     event_dim_of_stat: HashMap<String, String>,
+    store_warmup: bool,
 }
 
 /// Per-chain storage for Zarr MCMC traces
@@ -77,6 +78,7 @@ pub struct ZarrChainStorage {
     last_sample_was_warmup: bool,
     event_dim_of_stat: HashMap<String, String>,
     warmup_event_counts: HashMap<String, u64>,
+    store_warmup: bool,
 }
 
 /// Write a chunk of data to a Zarr array
@@ -165,6 +167,7 @@ impl ZarrChainStorage {
         buffer_size: u64,
         chain: u64,
         event_dim_of_stat: HashMap<String, String>,
+        store_warmup: bool,
     ) -> Self {
         let draw_buffers = draw_types
             .iter()
@@ -183,6 +186,7 @@ impl ZarrChainStorage {
             last_sample_was_warmup: true,
             event_dim_of_stat,
             warmup_event_counts: HashMap::new(),
+            store_warmup,
         }
     }
 
@@ -235,6 +239,10 @@ impl ChainStorage for ZarrChainStorage {
         draws: Vec<(&str, Option<Value>)>,
         info: &Progress,
     ) -> Result<()> {
+        if info.tuning && !self.store_warmup {
+            // Only post-warmup draws are stored.
+            return Ok(());
+        }
         let is_first_draw = self.last_sample_was_warmup && !info.tuning;
         if is_first_draw {
             self.warmup_event_counts = event_counts(&self.event_dim_of_stat, &self.stats_buffers);
@@ -597,6 +605,7 @@ impl StorageConfig for ZarrConfig {
             draw_types,
             draw_chunk_size,
             event_dim_of_stat,
+            store_warmup: self.store_warmup,
         })
     }
 }
@@ -614,6 +623,7 @@ impl TraceStorage for ZarrTraceStorage {
             self.draw_chunk_size,
             chain_id as _,
             self.event_dim_of_stat.clone(),
+            self.store_warmup,
         ))
     }
 
